@@ -15,7 +15,7 @@ LEVEL_TEXT = ("The four unmodified clients run on an in-memory transport under a
               "inside headers, inside CR LF, inside AA 55) with generated callback behaviour (return / raise / sleep). The callback trace "
               "must equal what a fresh decoder with the same settings returns for the packets one by one.")
 TECHNIQUE = "model-based testing of the receive path against a packet-wise reference decoder under generated segmentations (Hypothesis, virtual-clock asyncio)"
-RULE = ("client type x stream of 3..25 packets x cut points x callback behaviour per message x yields between chunks x decoder settings; "
+RULE = ("client type x stream of 3..25 packets (serial: also packets containing AA 55 / ending in 0xAA and marker-free stray bytes, plus systematic boundary scenarios) x cut points x callback behaviour per message x yields / quiet-bus gaps between chunks x decoder settings; "
         "oracle: callback trace == reference decoder over the stream's packets (same messages, once each, same order); non-trivial = "
         "segmentation with a cut inside a packet, or >= 1 malformed/unknown packet, or >= 1 failing/slow callback; distinct = (client, "
         "stream, cuts, behaviour)")
